@@ -39,6 +39,7 @@ def check(repo, tier="quick"):
     res.rule("C02.3", "every divisor state[k] is non-zero (guard or GNZ invariant); other divisors triaged")
     res.rule("C02.4", "every enum/table lookup keyed by a bitstream value is validated first")
     res.rule("C02.5", "only ConformanceError subclasses are raised; every assert is discharged by a static fact")
+    res.rule("C02.7", "per-picture data is built from scratch: the allocating functions of the decoder (wavelet data arrays, synthesis outputs) return only objects constructed during the call, never something kept from an earlier picture whose nested shape belongs to other parameters")
     res.rule("C02.6", "every ConformanceError can explain/locate/hint: explain defined, attributes stored, templates and arities agree")
 
     conds = analyses.a1_conditions(repo)
@@ -60,6 +61,8 @@ def check(repo, tier="quick"):
     rule_state_keys(repo, res, sf)
     rule_divisors(repo, res, sf, reach)
     c02_lookup.rule_lookups(repo, res, sf, reach, exc)
+    rule_fresh(repo, res)
+    res.floor("C02.7", 4)
     rule_raises(repo, res, sf, reach, exc)
     rule_reporting(repo, res, reach, exc)
     rule_level_dict(repo, res, sf, exc)
@@ -915,3 +918,32 @@ def rule_level_dict(repo, res, sf, exc):
     levels_rows = set(repo.ext.lookups.get("LEVELS", {}).get("rows", {}))
     missing = sorted(set(lv.values()) - levels_rows)
     res.check(not missing, "C02.6", "levels:LEVELS-covers-enum", "vc2_data_tables/csv/levels.csv", "LEVELS has no row for Levels values %s" % missing, by="LEVELS covers the enum")
+
+
+# functions of the validator's reach that allocate per-picture structures (confirmed on the reviewed tree:
+# their every return is a local assigned a display / comprehension / new_array(...) in the call)
+FRESH_RETURNING = [
+    "decoder.transform_data_syntax:initialize_wavelet_data",
+    "pseudocode.picture_decoding:h_synthesis",
+    "pseudocode.picture_decoding:vh_synthesis",
+    "pseudocode.arrays:new_array",
+]
+
+
+def rule_fresh(repo, res):
+    for spec in FRESH_RETURNING:
+        m, fn = repo.func(spec)
+        where = "%s:%s" % (m.rel, fn.name)
+        rets = [x for x in ast.walk(fn) if isinstance(x, ast.Return)]
+        stale = []
+        for x in rets:
+            v = x.value
+            ok = False
+            if isinstance(v, (ast.Dict, ast.List, ast.ListComp, ast.DictComp)) or v is None or isinstance(v, ast.Constant):
+                ok = True  # displays, comprehensions and constants (leaf None) carry no earlier state
+            elif isinstance(v, ast.Name):
+                ds = [a.value for a in ast.walk(fn) if isinstance(a, ast.Assign) and any(isinstance(t, ast.Name) and t.id == v.id for t in a.targets)]
+                ok = bool(ds) and all(isinstance(d, (ast.Dict, ast.List, ast.ListComp, ast.DictComp)) or (isinstance(d, ast.Call) and dotted(d.func) in ("new_array", "dict", "list", "OrderedDict")) for d in ds)
+            if not ok:
+                stale.append(short(x, 50))
+        res.check(bool(rets) and not stale, "C02.7", "fresh:%s" % fn.name, where, "%s can return `%s`, which is not built during the call: data kept from an earlier picture has the nested shape of that picture's transform parameters, and indexing it with the current ones raises KeyError/IndexError inside the decoder" % (fn.name, "; ".join(stale)), by="every return is an object constructed in the call")
